@@ -8,116 +8,6 @@ Arguments N.mul : simpl never.
 Arguments N.div : simpl never.
 Arguments N.modulo : simpl never.
 
-(* ---------- structure ---------- *)
-Record pattr := mkP { p_nidx : N; p_len : N; p_body : bytes }.   (* attribute_name_index, attribute_length, info *)
-
-Inductive attr :=
-| AtPlain (a : pattr)
-| AtCode (nidx len max_stack max_locals : N) (code : bytes) (nexc : N) (exc : bytes) (attrs : list pattr)
-| AtRecord (nidx len : N) (comps : list (N * N * list pattr)).
-
-Record member := mkM { m_access : N; m_name : N; m_desc : N; m_attrs : list attr }.
-Record cls := mkC { c_hdr : bytes; c_fields : list member; c_methods : list member; c_attrs : list attr }.
-
-(* ---------- encoding ---------- *)
-Definition enc_pattr (a : pattr) : bytes := e16 (p_nidx a) ++ e32 (p_len a) ++ p_body a.
-Definition enc_pattrs (l : list pattr) : bytes := e16 (elen l) ++ flat_map enc_pattr l.
-Definition code_body (ms ml : N) (code : bytes) (nexc : N) (exc : bytes) (attrs : list pattr) : bytes :=
-  e16 ms ++ e16 ml ++ e32 (elen code) ++ code ++ e16 nexc ++ exc ++ enc_pattrs attrs.
-Definition enc_rc (c : N * N * list pattr) : bytes := e16 (fst (fst c)) ++ e16 (snd (fst c)) ++ enc_pattrs (snd c).
-Definition record_body (comps : list (N * N * list pattr)) : bytes := e16 (elen comps) ++ flat_map enc_rc comps.
-
-Definition attr_nidx (a : attr) : N :=
-  match a with AtPlain p => p_nidx p | AtCode n _ _ _ _ _ _ _ => n | AtRecord n _ _ => n end.
-Definition attr_len (a : attr) : N :=
-  match a with AtPlain p => p_len p | AtCode _ l _ _ _ _ _ _ => l | AtRecord _ l _ => l end.
-Definition attr_body (a : attr) : bytes :=
-  match a with
-  | AtPlain p => p_body p
-  | AtCode _ _ ms ml code nexc exc attrs => code_body ms ml code nexc exc attrs
-  | AtRecord _ _ comps => record_body comps
-  end.
-Definition enc_attr (a : attr) : bytes := e16 (attr_nidx a) ++ e32 (attr_len a) ++ attr_body a.
-Definition enc_attrs (l : list attr) : bytes := e16 (elen l) ++ flat_map enc_attr l.
-Definition enc_member (m : member) : bytes := e16 (m_access m) ++ e16 (m_name m) ++ e16 (m_desc m) ++ enc_attrs (m_attrs m).
-Definition enc_members (l : list member) : bytes := e16 (elen l) ++ flat_map enc_member l.
-Definition enc (c : cls) : bytes :=
-  c_hdr c ++ enc_members (c_fields c) ++ enc_members (c_methods c) ++ enc_attrs (c_attrs c).
-
-(* ---------- well-formedness ---------- *)
-Definition act_full (ct : ctx_table) (name : str) : option action := dispatch (t_arms ct) (t_interests ct) name.
-
-Definition wf_plain_b (p : pool) (ct : ctx_table) (a : pattr) : bool :=
-  match pool_utf8 p (p_nidx a) with
-  | None => false
-  | Some name =>
-    (p_len a =? elen (p_body a)) &&
-    match act_full ct name with
-    | Some ASkip | Some (AParse _) | Some (AReadLen _) => true
-    | Some (AFlag _) => match p_body a with [] => true | _ => false end   (* Deprecated / Synthetic have no body *)
-    | _ => false
-    end
-  end.
-
-(* the slot a plain attribute is stored in (when its arm stores), and whether that slot is insert_if_empty *)
-Definition stores (p : pool) (ct : ctx_table) (a : pattr) : option (str * bool) :=
-  match pool_utf8 p (p_nidx a) with
-  | None => None
-  | Some name => match act_full ct name with Some (AParse (DStore s o)) => Some (s, o) | _ => None end
-  end.
-
-(* no attribute fills an insert_if_empty slot that an earlier attribute of the list already filled *)
-Fixpoint once_ok (p : pool) (ct : ctx_table) (l : list pattr) : bool :=
-  match l with
-  | [] => true
-  | a :: l' =>
-    match stores p ct a with
-    | Some (s, _) => negb (existsb (fun b => match stores p ct b with Some (s', true) => str_eqb s' s | _ => false end) l')
-    | None => true
-    end && once_ok p ct l'
-  end.
-
-Definition wf_pattrs_b (p : pool) (ct : ctx_table) (l : list pattr) : bool :=
-  forallb (wf_plain_b p ct) l && once_ok p ct l.
-
-Inductive ctx_kind := KLeaf | KMethod | KClass.
-Definition is_method (k : ctx_kind) : bool := match k with KMethod => true | _ => false end.
-Definition is_class (k : ctx_kind) : bool := match k with KClass => true | _ => false end.
-
-Definition wf_attr_b (p : pool) (T : reader_tables) (k : ctx_kind) (ct : ctx_table) (a : attr) : bool :=
-  match a with
-  | AtPlain pa => wf_plain_b p ct pa
-  | AtCode nidx len ms ml code nexc exc attrs =>
-      is_method k
-      && match pool_utf8 p nidx with
-         | Some name => match act_full ct name with Some (ACode _) => true | _ => false end
-         | None => false
-         end
-      && (len =? elen (code_body ms ml code nexc exc attrs))
-      && negb (elen code =? 0) && negb (65535 <? elen code) && (elen exc =? 8 * nexc)
-      && wf_pattrs_b p (rt_code T) attrs
-  | AtRecord nidx len comps =>
-      is_class k
-      && match pool_utf8 p nidx with
-         | Some name => match act_full ct name with Some (ARecord _) => true | _ => false end
-         | None => false
-         end
-      && (len =? elen (record_body comps))
-      && forallb (fun c => wf_pattrs_b p (rt_rc T) (snd c)) comps
-  end.
-
-Definition plains (l : list attr) : list pattr :=
-  flat_map (fun a => match a with AtPlain p => [p] | _ => [] end) l.
-Definition is_rec (a : attr) : bool := match a with AtRecord _ _ _ => true | _ => false end.
-Fixpoint count_rec (l : list attr) : nat :=
-  match l with [] => O | a :: l' => (if is_rec a then 1 else 0) + count_rec l' end.
-
-Definition wf_attrs_b (p : pool) (T : reader_tables) (k : ctx_kind) (ct : ctx_table) (l : list attr) : bool :=
-  forallb (wf_attr_b p T k ct) l && once_ok p ct (plains l) && Nat.leb (count_rec l) 1.
-
-Definition wf_member_b (p : pool) (T : reader_tables) (k : ctx_kind) (ct : ctx_table) (m : member) : bool :=
-  wf_attrs_b p T k ct (m_attrs m).
-
 (* the bodies that are parsed by their own grammar: the grammar consumes exactly the declared length *)
 Definition g_resp_plain (g : grammar) (p : pool) (ct : ctx_table) (a : pattr) : Prop :=
   forall name d r, pool_utf8 p (p_nidx a) = Some name -> act_full ct name = Some (AParse d) ->
